@@ -253,3 +253,65 @@ def collocation_content(ctx):
                 nq = count_sub(freeze(xqk[n]), lambda s: len(s) == 3 and s[0] == "get" and s[2] == "quad")
                 ctx.check(nq == n * d, "%s: xqk[%d] sums %d collocation contributions" % (label, n, n * d), detail="integrator-point quadrature stored at the wrong index", expected=n * d, found=nq, fi=f)
     return sweep(ctx, cname, body)
+
+
+def sym_poly(t):
+    """Polynomial normal form (rkverif.poly) of a frozen arithmetic term of the layout interpreter: +, -, *, / by a number
+    are interpreted, every other term is an atom.  Two spellings of the same arithmetic give the same polynomial."""
+    from ..poly import Poly
+    from fractions import Fraction
+    if isinstance(t, bool):
+        return Poly.const(int(t))
+    if isinstance(t, int):
+        return Poly.const(t)
+    if isinstance(t, float):
+        return Poly.const(Fraction(t).limit_denominator(10 ** 9))
+    if isinstance(t, tuple) and len(t) == 4 and t[0] == "binop":
+        op, a, b = t[1], sym_poly(t[2]), sym_poly(t[3])
+        if op == "Add":
+            return a + b
+        if op == "Sub":
+            return a - b
+        if op == "Mult":
+            return a * b
+        if op == "Div" and b.is_const() and b.const_value() != 0:
+            return a * Poly.const(Fraction(1) / b.const_value())
+        return Poly.atom(repr(t))
+    if isinstance(t, tuple) and len(t) == 3 and t[0] == "unary" and t[1] == "USub":
+        return Poly.const(-1) * sym_poly(t[2])
+    return Poly.atom(repr(t))
+
+
+def collocation_times(ctx):
+    """R02.4 on the interpreted lists: tr[k][i][j] == integrator_grid[k][i] + (control_grid[k+1]-control_grid[k])/M * tau[j],
+    one list per k, one per (k,i), degree entries each - whatever statement form builds them."""
+    cname = "DirectCollocation"
+    f = ctx.prog.method(cname, "add_constraints")
+
+    def body(a, cfg, label):
+        N, M, d = cfg["N"], cfg["M"], cfg["d"]
+        tr, ig, cg, tau = L(a, "tr"), a.get("integrator_grid"), a.get("control_grid"), a.get("tau")
+        shape_ok = tr is not None and len(tr) == N and all(isinstance(x, list) and len(x) == M and all(isinstance(y, list) and len(y) == d for y in x) for x in tr)
+        ctx.check(shape_ok, "%s: tr is a list over k of lists over i of %d root times" % (label, d), detail="nesting of tr", expected="tr[k][i][j], k<N, i<M, j<degree", found=short(tr)[:80] if tr is not None else None, fi=f)
+        if not shape_ok:
+            return
+        bad = []
+        for k in range(N):
+            for i in range(M):
+                for j in range(d):
+                    try:
+                        got = sym_poly(freeze(tr[k][i][j]))
+                        igk = ig[k] if isinstance(ig, list) else Sym("get", ig, k)
+                        t_ki = igk[i] if isinstance(igk, list) else Sym("get", igk, i)
+                        c1 = cg[k + 1] if isinstance(cg, list) else Sym("get", cg, k + 1)
+                        c0 = cg[k] if isinstance(cg, list) else Sym("get", cg, k)
+                        from fractions import Fraction
+                        from ..poly import Poly
+                        want = sym_poly(freeze(t_ki)) + (sym_poly(freeze(c1)) - sym_poly(freeze(c0))) * Poly.const(Fraction(1, M)) * sym_poly(freeze(tau[j]))
+                        if got != want:
+                            bad.append((k, i, j, str(got)[:80]))
+                    except Exception as e:
+                        bad.append((k, i, j, "not comparable: %s" % e))
+        ctx.check(not bad, "%s: collocation times tr[k][i][j] = integrator_grid[k][i] + dt_k*tau[j]" % label, detail="collocation time of point (k,i,j)", expected="integrator_grid[k][i] + (control_grid[k+1]-control_grid[k])/M*tau[j]",
+                  found=str(bad[:2]), fi=f, sample={"cfg": label})
+    return sweep(ctx, cname, body)
